@@ -20,6 +20,8 @@ Definition commit_node_ops_sha := Store.commit_node_ops sha256.
 Definition memo_step_sha := Memo.memo_step sha256.
 Definition commit_bops_sha := PhysCommit.commit_bops sha256.
 Definition legacy_history_sha := LegacyStore.legacy_history sha256.
+Definition prune_legacy_sha := LegacyStore.prune_legacy sha256.
+Definition prune_new_version_sha := LegacyStore.prune_new_version sha256.
 
 Extraction "model.ml" m_step m_init bcmp sha256 uvarint_enc uvarint_dec varint_enc varint_dec
   bytes_enc bytes_dec be_enc be_dec
@@ -36,4 +38,5 @@ Extraction "model.ml" m_step m_init bcmp sha256 uvarint_enc uvarint_dec varint_e
   commit_node_ops_sha Crash.recover Crash.image Store.rollback_ops Store.rebuild_ops Store.apply_ops
   DbImage.encode_image DbImage.decode_image
   memo_step_sha Memo.memo_init
-  NodeCache.coherentb NodeCache.stale_keys Flusher.segs Flusher.fl_batches Flusher.cut_positions commit_bops_sha legacy_history_sha.
+  NodeCache.coherentb NodeCache.stale_keys Flusher.segs Flusher.fl_batches Flusher.cut_positions commit_bops_sha legacy_history_sha prune_legacy_sha prune_new_version_sha
+  LegacyStore.rollback_legacy LegacyStore.legacy_fuel LegacyStore.legacy_latest.
